@@ -61,19 +61,19 @@ func main() {
 // ------------------------------------------------------------------ runner
 
 type runner struct {
-	c        *core.Ctx
-	name     string
-	nshards  int
-	cases    []Case
-	results  []*Result
-	offsets  [][]int64 // per shard: byte offset of each of its case lines
-	ids      [][]int   // per shard: case index of each line
-	mu       sync.Mutex
-	restarts int
-	cpu      time.Duration
+	c          *core.Ctx
+	name       string
+	nshards    int
+	cases      []Case
+	results    []*Result
+	offsets    [][]int64 // per shard: byte offset of each of its case lines
+	ids        [][]int   // per shard: case index of each line
+	mu         sync.Mutex
+	restarts   int
+	cpu        time.Duration
 	watchdogMS int
-	slow     int  // results that cost a full watchdog period (hang / leak)
-	aborted  bool // too many of them: the run is cut short (a verdict exists already)
+	slow       int  // results that cost a full watchdog period (hang / leak)
+	aborted    bool // too many of them: the run is cut short (a verdict exists already)
 }
 
 func (r *runner) shardFile(s int) string {
@@ -498,7 +498,7 @@ func byteClass(class string) bool {
 func (sp *sampler) keep(format, seedName string, i int, m *Mutant, truncSeed bool) bool {
 	k, stride := 2, 5
 	if sp.full {
-		k, stride = 1 << 30, 1
+		k, stride = 1<<30, 1
 	}
 	if !sp.full && format == "vng" {
 		k, stride = 1, 8
@@ -715,7 +715,7 @@ func run(c *core.Ctx) error {
 	// the list of mutated texts is the same for every seed; the quick tier runs a seed-dependent slice of it
 	qrng := rand.New(rand.NewSource(20240911))
 	for qi, m := range queryMutants(qrng, corpus, per, true) {
-		if !full && m.Class != "corpus" && (qi+int(c.Seed))%8 != 0 {
+		if !full && m.Class != "corpus" && (qi+int(c.Seed))%12 != 0 {
 			continue
 		}
 		cases = append(cases, Case{Kind: "query", Reader: "query", Consumer: "compile", Class: m.Class, Where: m.Where, Seed: "corpus", Data: m.Data})
@@ -1003,12 +1003,6 @@ func run(c *core.Ctx) error {
 			if strings.Contains(res.Detail, "gate-timeout") {
 				c.Add("gate_timeouts", 1)
 			}
-			if strings.Contains(res.Detail, "late-event") {
-				c.Add("late_events", 1)
-				if c.Count("late_events") <= 2 {
-					c.Logf("late event after quiesced: %s", truncate(res.Detail, 1500))
-				}
-			}
 		}
 	}
 	keys := make([]string, 0, len(outcomes))
@@ -1252,7 +1246,7 @@ func validateTraces(c *core.Ctx, traces [][]tevent, rng *rand.Rand) error {
 		c.Inconclusive("no hook traces were recorded")
 		return nil
 	}
-	limit := 250
+	limit := 200
 	if !c.Quick() {
 		limit = 2500
 	}
